@@ -2,7 +2,7 @@
 (* Family Compat (C14): mixed trees of library, standard-library, pkg/errors  *)
 (* and user types (Unwrap only, Cause only, both, multi-cause, own Is).       *)
 EXTENDS MCGen
-OpsV == {"GoNew", "Sentinel", "CtxDeadline", "Errno", "New", "PkgNew", "ULeaf", "UIs", "Wrap", "WithMessage",
+OpsV == {"UMultiCause", "GoNew", "Sentinel", "CtxDeadline", "Errno", "New", "PkgNew", "ULeaf", "UIs", "Wrap", "WithMessage",
          "WithStack", "WithHint", "WithDomain", "Mark", "WithSecondaryError", "Handled", "GoWrap",
          "PkgWithMessage", "PkgWithStack", "PkgWrap", "OsPathError", "OsSyscallError", "UWrap", "Join",
          "GoJoin", "GoWrap2", "Hop"}
